@@ -123,6 +123,52 @@ func c11Main(rc *RunCtx) {
 			}
 		}
 		simrt.Probe("c11.bulk")
+		if rc.Viol == nil && simrt.Choose(2) == 0 {
+			// the cache is at capacity: now several tasks re-store existing keys and
+			// store new ones in a few shards concurrently; the bound must hold at
+			// every instant
+			simrt.Probe("c11.bulk_concurrent")
+			nt := 2 + simrt.Choose(4)
+			done := make(chan struct{}, nt)
+			target := simrt.Choose(64)
+			var existing []int
+			for k := 0; k < n; k++ {
+				if k%64 == target {
+					existing = append(existing, 100+k)
+				}
+			}
+			for j := 0; j < 200; j++ {
+				ckShard[ck(5000+j)] = uint64(target)
+			}
+			next := 0
+			for ti := 0; ti < nt; ti++ {
+				nops := 5 + simrt.Choose(25)
+				type op struct{ key, val int }
+				var ops []op
+				for i := 0; i < nops; i++ {
+					if simrt.Choose(2) == 0 && len(existing) > 0 {
+						ops = append(ops, op{existing[simrt.Choose(len(existing))], 7000 + i})
+					} else {
+						ops = append(ops, op{5000 + next, 8000 + i})
+						next++
+					}
+				}
+				simrt.GoNamed(fmt.Sprintf("storer%d", ti), func() {
+					for _, o := range ops {
+						v := o.val
+						cc.Store(ck(o.key), &v, far)
+						if l := cc.Len(); l > bound {
+							rc.Fail("capacity_exceeded", "size=%d: Len()=%d exceeds max(size,1024)=%d during concurrent stores on a full cache", c.size, l, bound)
+							break
+						}
+					}
+					simrt.Send(0, done, struct{}{})
+				})
+			}
+			for ti := 0; ti < nt; ti++ {
+				simrt.Recv(0, done)
+			}
+		}
 		cc.Close()
 		return
 	}
